@@ -40,3 +40,13 @@ func ProfileMatrix(avoid map[string]string) *Profile {
 	p.Recursive = false
 	return p
 }
+
+// ProfileTransport stresses URL/verb/body transport between generated clients and servers.
+func ProfileTransport(avoid map[string]string) *Profile {
+	return &Profile{Name: "transport", MaxDataMessages: 2, MaxFields: 4, Nested: true, Maps: true, Oneofs: true,
+		Optionals: true, Repeateds: true, Enums: true, Timestamps: true, MessageFields: true,
+		MaxServices: 2, MaxMethods: 3, Transport: true, BasePaths: true, OddBasePaths: true, DefaultPaths: true, QueryOnBody: true,
+		RepeatedQuery:   true,
+		Features:        Features("int64", "nullable", "bytes", "timestamp", "empty", "enum_number", "oneof_disc", "unwrap_root_list", "unwrap_root_map"),
+		AnnotateAnyCard: true, Avoid: avoid}
+}
